@@ -178,8 +178,128 @@ type ModelCut struct {
 	Other     []int    `json:"other_record_types"` // record types outside the model (must be empty)
 	Restored  Dump     `json:"restored"`
 	Reads     [3]uint64 `json:"reads"` // restored store: KVSList("") index, SessionList index, PreparedQueryList index
+	QReads    []QRead  `json:"qreads"` // restored store: the modelled read queries as the implementation answers them
 	Final     *Dump    `json:"final,omitempty"` // restored FSM after the suffix
 	Failures  []string `json:"failures,omitempty"`
+}
+
+// QRead: one read of the restored store, in the vocabulary of Snapshot.Model.query / qres.
+type QRead struct {
+	Q        string     `json:"q"` // kvget kvlist sessget sesslist node nodeservices nodechecks queryget
+	Arg      string     `json:"arg"`
+	Idx      uint64     `json:"idx"`
+	KV       *KVRow     `json:"kv,omitempty"`
+	KVs      []KVRow    `json:"kvs,omitempty"`
+	Sess     *SessRow   `json:"sess,omitempty"`
+	Sessions []SessRow  `json:"sessions,omitempty"`
+	Node     *NodeRow   `json:"node,omitempty"`
+	Services []SvcRow   `json:"services,omitempty"`
+	Checks   []CheckRow `json:"checks,omitempty"`
+	QSid     *string    `json:"qsid,omitempty"`
+}
+
+// modelReads runs the real read paths (KVSGet, KVSList, SessionGet, SessionList, GetNode,
+// NodeServices, NodeChecks, PreparedQueryGet) over the model's universe.
+func modelReads(st *state.Store) []QRead {
+	var out []QRead
+	for _, k := range mKeys {
+		idx, e, err := st.KVSGet(nil, k, nil)
+		if err != nil {
+			panic(err)
+		}
+		r := QRead{Q: "kvget", Arg: k, Idx: idx}
+		if e != nil {
+			row := kvRow(e)
+			r.KV = &row
+		}
+		out = append(out, r)
+	}
+	{
+		idx, es, err := st.KVSList(nil, "", nil)
+		if err != nil {
+			panic(err)
+		}
+		r := QRead{Q: "kvlist", Idx: idx, KVs: []KVRow{}}
+		for _, e := range es {
+			r.KVs = append(r.KVs, kvRow(e))
+		}
+		out = append(out, r)
+	}
+	for _, id := range mSessIDs {
+		idx, se, err := st.SessionGet(nil, id, nil)
+		if err != nil {
+			panic(err)
+		}
+		r := QRead{Q: "sessget", Arg: id, Idx: idx}
+		if se != nil {
+			row := sessRow(se)
+			r.Sess = &row
+		}
+		out = append(out, r)
+	}
+	{
+		idx, ss, err := st.SessionList(nil, nil)
+		if err != nil {
+			panic(err)
+		}
+		r := QRead{Q: "sesslist", Idx: idx, Sessions: []SessRow{}}
+		for _, se := range ss {
+			r.Sessions = append(r.Sessions, sessRow(se))
+		}
+		out = append(out, r)
+	}
+	em := structs.DefaultEnterpriseMetaInDefaultPartition()
+	for _, nd := range mNodeNames {
+		_, n, err := st.GetNode(nd, em, "")
+		if err != nil {
+			panic(err)
+		}
+		r := QRead{Q: "node", Arg: nd}
+		if n != nil {
+			row := nodeRow(n)
+			r.Node = &row
+		}
+		out = append(out, r)
+		_, nss, err := st.NodeServices(nil, nd, em, "")
+		if err != nil {
+			panic(err)
+		}
+		rs := QRead{Q: "nodeservices", Arg: nd, Services: []SvcRow{}}
+		if nss != nil {
+			var ids []string
+			for id := range nss.Services {
+				ids = append(ids, id)
+			}
+			sort.Strings(ids)
+			for _, id := range ids {
+				v := nss.Services[id]
+				rs.Services = append(rs.Services, SvcRow{Node: nd, ID: v.ID, Name: v.Service, Port: v.Port, C: v.CreateIndex, M: v.ModifyIndex})
+			}
+		}
+		out = append(out, rs)
+		_, hcs, err := st.NodeChecks(nil, nd, em, "")
+		if err != nil {
+			panic(err)
+		}
+		rc := QRead{Q: "nodechecks", Arg: nd, Checks: []CheckRow{}}
+		for _, hc := range hcs {
+			rc.Checks = append(rc.Checks, checkRow(hc))
+		}
+		out = append(out, rc)
+	}
+	for _, id := range mQueryIDs {
+		idx, pq, err := st.PreparedQueryGet(nil, id)
+		if err != nil {
+			panic(err)
+		}
+		r := QRead{Q: "queryget", Arg: id, Idx: idx}
+		if pq != nil {
+			sid := pq.Session
+			r.QSid = &sid
+		}
+		out = append(out, r)
+	}
+	return out
 }
 
 type ModelHistory struct {
@@ -930,7 +1050,8 @@ func runModelHistory(id int, seed int64, mix string, n int, script []Cmd) ModelH
 		} else {
 			c = g.next()
 		}
-		out := d.apply(c.Idx, mEncode(&c))
+		data := mEncode(&c)
+		out := d.apply(c.Idx, data)
 		h.Cmds = append(h.Cmds, c)
 		h.Results = append(h.Results, modelResult(out))
 		rawResults = append(rawResults, canonResult(out))
@@ -975,6 +1096,7 @@ func runModelHistory(id int, seed int64, mix string, n int, script []Cmd) ModelH
 		mc.Reads[0], _, _ = m.store().KVSList(nil, "", nil)
 		mc.Reads[1], _, _ = m.store().SessionList(nil, nil)
 		mc.Reads[2], _, _ = m.store().PreparedQueryList(nil)
+		mc.QReads = modelReads(m.store())
 		addF(compareDumps(k, "dump", dumps[k], dumpStore(m.store()), wits[k], false))
 		for i := k; i < n; i++ {
 			res := canonResult(m.apply(h.Cmds[i].Idx, mEncode(&h.Cmds[i])))
